@@ -68,6 +68,7 @@ CLASSES = [
          {"name": "picked", "args": [(INT, "i", None)]},
          {"name": "picked", "args": [(STR, "s", None)]},           # true overload
          {"name": "fired", "args": []},
+         {"name": "tuned", "args": [(INT, "a", None), (INT, "b", None), (BOOL, "c", None)]},
          {"name": "renamed", "args": [(STR, "name", None), (INT, "gen", "1")]},
          {"name": "textChanged", "args": []},                       # overload of the notify signal
          # overload sets that mix default-argument clones with true overloads (must be treated as ambiguous):
